@@ -11,7 +11,8 @@
    (Value/LeafRun.v canon_idem_at), as is Value.Model.float_int64 against the real
    `f == float64(int64(f))` test (int64_at). *)
 From Coq Require Import ZArith List String.
-From GSP Require Import Base.Prelude Value.Time Value.Model Value.Leaf Value.LeafTheory.
+From GSP Require Import Base.Prelude Value.Time Value.Model Value.Leaf Value.LeafTheory
+  RDF.Model SMT.Model Merklizer.Model Merklizer.Script Value.LeafPinned.
 Import ListNotations.
 Open Scope Z_scope.
 
@@ -49,3 +50,39 @@ Print Assumptions C10_kind.
 Theorem C10_int_roundtrip : forall z : Z, int_from_str (z_to_string z) = Some z.
 Proof. exact int_from_str_z_to_string. Qed.
 Print Assumptions C10_int_roundtrip.
+
+(* "for every hasher", in time: a merklizer built WITHOUT WithHasher pins the package
+   default hasher of that moment.  D i = value of the package variable defaultHasher
+   while call number i runs (call 0 = MerklizeJSONLD, calls 1.. = the caller's script:
+   Root, path keys, Proof + Value.MtEntry + VerifyProof, Entry, JSONLDType, NewRDFEntry,
+   MkValue, all through the merklizer's own Options).  Whatever merklize.SetHasher does
+   after call 0, every observation is unchanged. *)
+Theorem C10_hasher_pinned :
+  forall (T : tparams) (F : floats) (D D' : nat -> hasher) (ds : dataset) (ss : list step),
+  D O = D' O ->
+  forallb via_options ss = true ->
+  run T F D None ds ss = run T F D' None ds ss.
+Proof. exact pinned_script. Qed.
+Print Assumptions C10_hasher_pinned.
+
+(* and concretely at C10's observation points: under ANY later default Hd', the path
+   built through mz.Options() hashes to the member key, Proof returns an existence
+   proof whose Value carries the creation-time hasher Hd and hashes to the leaf value
+   (= mkValueMtEntry under Hd = RDFEntry.ValueMtEntry), and the proof verifies against
+   the root; mz.Hasher() = Hd, so HashValueWithHasher(mz.Hasher(), ..) is C10_agree at H = Hd *)
+Theorem C10_pinned_member :
+  forall (T : tparams) (F : floats) (Hd : hasher) (ds : dataset) (m : mz),
+  merklize_ds T Hd F None None ds = Ok m ->
+  mz_hasher m = Hd /\
+  forall (Hd' : hasher) (k : Z) (e : rdf_entry), In (k, e) (mz_entries m) ->
+    let p := mz_new_path Hd' m (p_parts (re_key e)) in
+    path_mt_entry Hd' p = Ok k /\
+    exists pr v vh,
+      mz_proof T Hd' m p = Ok (pr, Some v) /\ ex pr = true /\
+      v_val v = re_val e /\ v_hasher v = Some Hd /\
+      value_mt_entry v = Ok vh /\
+      mk_value_entry Hd (re_val e) = Ok vh /\
+      entry_val_mt Hd' e = Ok vh /\
+      verify_proof (tp_hl T) (tp_hm T) (mz_root T m) pr (hash_of_z k) (hash_of_z vh) = true.
+Proof. exact pinned_member. Qed.
+Print Assumptions C10_pinned_member.
